@@ -1460,7 +1460,7 @@ def _legacy_units_sites(v):
             for k, r in enumerate(t.rows[:2]):
                 cur = t.ws.cell(row=r, column=t.cols["units"]).value
                 if isinstance(cur, str) and cur.strip():
-                    out += [[i, k, j] for j in range(3)]
+                    out += [[i, k, j] for j in range(5)]
     return out
 
 
@@ -1468,16 +1468,82 @@ def _legacy_units_apply(v, site):
     t = v.required_tables()[site[0]]
     cell = t.ws.cell(row=t.rows[site[1]], column=t.cols["units"])
     cur = cell.value.strip()
-    cell.value = [cur.split()[0], None, cur.upper()][site[2]]
+    first = cur.split()[0]
+    cell.value = [first, None, cur.upper(), first.lower(), " %s " % first.upper()][site[2]]
 
 
 reg(
     "db.legacy_or_blank_units",
     DB,
     "accept",
-    "data.py:406-413 units that are empty or only name the quantity type ('Rate' for 'Rate (per year)') are migrated to the framework units; 515 comparison is case-insensitive",
+    "data.py:406-413 units that are empty or only name the quantity type in any case ('Rate', 'rate', ' RATE ' for 'Rate (per year)'; excel.py:982-984 strips) are migrated to the framework units; 515 comparison is case-insensitive",
     _legacy_units_sites,
     _legacy_units_apply,
+    "semantic",
+)
+
+
+PER = ["(per year)", "(per week)", "(per day)", "(per month)"]
+SPAN = ["(years)", "(weeks)", "(days)", "(months)"]
+_TS_PRIORITY = {"probability": 0, "rate": 1, "duration": 2, "number": 3}
+
+
+def _timescale_variants(cur):
+    """units of the same quantity type as `cur` but another timescale (a different meaning: per week is 52x per year)"""
+    words = cur.strip().split(None, 1)
+    kind = words[0].lower()
+    suffix = " ".join(words[1].lower().split()) if len(words) > 1 else ""
+    if kind not in _TS_PRIORITY:
+        return []
+    pool = SPAN if kind == "duration" else PER
+    alts = [x for x in pool if x != suffix]
+    out = ["%s %s" % (words[0], a) for a in alts]
+    out.append("%s  %s" % (words[0].lower(), alts[0]))  # same wrong timescale in another case / spacing
+    if suffix and kind == "number":
+        pass  # a bare 'Number' for 'Number (per year)' is the legal legacy form (data.py:412)
+    return out
+
+
+def _ts_tables(v):
+    """(table index, current units) of tables whose units carry a quantity type with a timescale; distinct unit strings and probability / rate first"""
+    tabs = []
+    for i, t in enumerate(v.required_tables()):
+        if "units" in t.cols and t.rows:
+            cur = t.ws.cell(row=t.rows[0], column=t.cols["units"]).value
+            # reference = the units the framework declares (a library databook may hold the legacy bare type, for which the full framework units are of course right)
+            try:
+                cur = v.F.get_databook_units(v.spec_of(t).name)
+            except Exception:
+                pass
+            if isinstance(cur, str) and _timescale_variants(cur):
+                tabs.append((i, cur.strip()))
+    seen, first, rest = set(), [], []
+    for i, cur in tabs:
+        (rest if cur.lower() in seen else first).append((i, cur))
+        seen.add(cur.lower())
+    first.sort(key=lambda x: (_TS_PRIORITY[x[1].split()[0].lower()], len(x[1].split()) == 1))
+    return (first + rest)[:10]
+
+
+def _ts_units_sites(v):
+    return [[i, j] for i, cur in _ts_tables(v) for j in range(len(_timescale_variants(cur)))]
+
+
+def _ts_units_apply(v, site):
+    t = v.required_tables()[site[0]]
+    cell = t.ws.cell(row=t.rows[0], column=t.cols["units"])
+    ref = dict(_ts_tables(v))[site[0]]
+    cell.value = _timescale_variants(ref)[site[1]]
+
+
+reg(
+    "db.unit_timescale_mismatch",
+    DB,
+    "reject",
+    "data.py:406-413 only empty units or the bare quantity type are migrated ('if the user entered something that is wrong, we need to keep it and alert them during validation'); "
+    "515-519 'Unit ... does not match the declared units from the Framework' (same type, other timescale: 'Probability (per week)' vs 'Probability (per year)', 'Duration (weeks)' vs 'Duration (years)', 'Number (per year)' vs 'Number'); framework.py:384-434 get_databook_units",
+    _ts_units_sites,
+    _ts_units_apply,
     "semantic",
 )
 
